@@ -457,6 +457,10 @@ impl<'a> Socket<'a> {
 
                 let mut addresses = Vec::new();
 
+                // Follow CNAMEs on a copy of the name: the pending query must keep asking for
+                // the name the application gave if this response turns out to be unusable.
+                let mut cur_name = pq.name.clone();
+
                 for _ in 0..p.answer_record_count() {
                     let (payload2, r) = match Record::parse(payload) {
                         Ok(x) => x,
@@ -467,7 +471,7 @@ impl<'a> Socket<'a> {
                     };
                     payload = payload2;
 
-                    match eq_names(p.parse_name(r.name), p.parse_name(&pq.name)) {
+                    match eq_names(p.parse_name(r.name), p.parse_name(&cur_name)) {
                         Ok(true) => {}
                         Ok(false) => {
                             net_trace!("answer name mismatch: {:?}", r);
@@ -504,7 +508,7 @@ impl<'a> Socket<'a> {
                             // records for the CNAME when we parse them later.
                             // I believe it's mandatory the CNAME results MUST come *after* in the
                             // packet, so it's enough to do one linear pass over it.
-                            if copy_name(&mut pq.name, p.parse_name(name)).is_err() {
+                            if copy_name(&mut cur_name, p.parse_name(name)).is_err() {
                                 net_trace!("dns answer cname malformed");
                                 return;
                             }
